@@ -14,12 +14,23 @@ Inductive cliobs :=
 | CliOk (bal : list (N * amount)) (reg : list (N * amount * amount))
 | CliErr.
 
+(* the first ledger read with `--price-db DB`: `okane balance -X T --now D` and `okane primitive eval
+   --date D -X T 'N C'`.  kind: 0 printed | 1 stopped in the ledger (load or book-keeping) |
+   2 stopped loading the price DB | 3 stopped in the query / evaluation | 9 panic *)
+Record pdbobs := { p_kind : N; p_bal : list (N * amount); p_ekind : N; p_eval : amount }.
+Definition PO (k : N) (b : list (N * amount)) (ek : N) (e : amount) : pdbobs :=
+  {| p_kind := k; p_bal := b; p_ekind := ek; p_eval := e |}.
+
 Record case := {
   c_a : list nentry; c_b : list nentry;
   c_obs_a : lobs; c_obs_b : lobs;
-  c_cli_a : cliobs; c_cli_b : cliobs }.
+  c_cli_a : cliobs; c_cli_b : cliobs;
+  (* the same price DB spelled with canonical names / with aliases declared by c_a *)
+  c_pdb : option (pdbobs * pdbobs) }.
 Definition C (a b : list nentry) (oa ob : lobs) (ca cb : cliobs) : case :=
-  {| c_a := a; c_b := b; c_obs_a := oa; c_obs_b := ob; c_cli_a := ca; c_cli_b := cb |}.
+  {| c_a := a; c_b := b; c_obs_a := oa; c_obs_b := ob; c_cli_a := ca; c_cli_b := cb; c_pdb := None |}.
+Definition CP (a b : list nentry) (oa ob : lobs) (ca cb : cliobs) (pc pa : pdbobs) : case :=
+  {| c_a := a; c_b := b; c_obs_a := oa; c_obs_b := ob; c_cli_a := ca; c_cli_b := cb; c_pdb := Some (pc, pa) |}.
 
 (* ---- model side ---- *)
 Definition ierr_code (e : intern_err) : N :=
@@ -233,6 +244,42 @@ Definition cli_consistent (o : lobs) (c : cliobs) : bool :=
   | _, _ => false
   end.
 
+(* ---- price DB: the spelling of its `P` lines is immaterial ---- *)
+Definition pdb_same (x y : pdbobs) : bool :=
+  (p_kind x =? p_kind y)%N && (p_ekind x =? p_ekind y)%N
+  && list_eqb (fun u v => (fst u =? fst v)%N && amount_eqb (snd u) (snd v)) (p_bal x) (p_bal y)
+  && amount_eqb (p_eval x) (p_eval y).
+Definition pdb_clean (ba bc : list N) (x : pdbobs) : bool :=
+  forallb (fun u => negb (mem_n (fst u) ba) && amount_clean bc (snd u)) (p_bal x)
+  && amount_clean bc (p_eval x).
+(* the DB is well formed and is read after the ledger: a run stops in the ledger exactly when the
+   same ledger read without a price DB is refused, and never while loading the DB *)
+Definition pdb_stage_ok (o : lobs) (x : pdbobs) : bool :=
+  let ok k := (k =? 0)%N || (k =? 3)%N in
+  match o with
+  | LOk _ _ => ok (p_kind x) && ok (p_ekind x)
+  | LErr _ _ => (p_kind x =? 1)%N && (p_ekind x =? 1)%N
+  | LPanic => false
+  end.
+Definition pdb_spec (c : case) (ba bc : list N) : bool :=
+  match c_pdb c with
+  | None => true
+  | Some (pc, pa) =>
+      pdb_same pc pa && pdb_clean ba bc pc && pdb_clean ba bc pa
+      && pdb_stage_ok (c_obs_a c) pc && pdb_stage_ok (c_obs_a c) pa
+  end.
+Definition pdb_model (c : case) (m : nres nstate * nat) : bool :=
+  match c_pdb c with
+  | None => true
+  | Some (pc, pa) =>
+      let ok k := (k =? 0)%N || (k =? 3)%N in
+      match m with
+      | (NOk _, _) => ok (p_kind pc) && ok (p_ekind pc) && ok (p_kind pa) && ok (p_ekind pa)
+      | (NErr _, _) => (p_kind pc =? 1)%N && (p_ekind pc =? 1)%N && (p_kind pa =? 1)%N && (p_ekind pa =? 1)%N
+      | (NPanic, _) => (p_kind pc =? 9)%N && (p_kind pa =? 9)%N
+      end
+  end.
+
 Definition spec_holds (c : case) : bool :=
   let ba := account_aliases (c_a c) ++ account_aliases (c_b c) in
   let bc := commodity_aliases (c_a c) ++ commodity_aliases (c_b c) in
@@ -244,13 +291,15 @@ Definition spec_holds (c : case) : bool :=
       && cli_clean ba bc (c_cli_a c) && cli_clean ba bc (c_cli_b c)
       && cli_consistent (c_obs_a c) (c_cli_a c) && cli_consistent (c_obs_b c) (c_cli_b c)
       && conflict_ok (c_a c) (c_obs_a c) && conflict_ok (c_b c) (c_obs_b c)
+      && pdb_spec c ba bc
   end.
 
 Definition classify (c : case) : N :=
   let ma := process_named (c_a c) in
   let mb := process_named (c_b c) in
   let model := nobs_agrees (c_obs_a c) ma && nobs_agrees (c_obs_b c) mb
-               && cli_agrees (c_cli_a c) ma && cli_agrees (c_cli_b c) mb in
+               && cli_agrees (c_cli_a c) ma && cli_agrees (c_cli_b c) mb
+               && pdb_model c ma in
   if spec_holds c then (if model then 0%N else 1%N) else 2%N.
 
 Definition verdicts (cs : list case) : list N := map classify cs.
